@@ -903,6 +903,8 @@ def rule_F6(ctx, entries=("conducting.WorkflowConductor.request_workflow_status"
                 if any(w.path[:len(x)] == x and w.guards and w.guards <= e.guards
                        for x in exempt_paths for w in effs):
                     continue
+                if _never_rejected(ctx, f, e):
+                    continue
                 bad.setdefault((dotted(e.path), e.op, _via(f, top)), e)
             inst = (q, norm_src(r))
             if not bad:
@@ -916,6 +918,54 @@ def rule_F6(ctx, entries=("conducting.WorkflowConductor.request_workflow_status"
     return res
 
 
+def _never_rejected(ctx, f, e):
+    """The write happens only for (requested, previous, new) status triples for which the
+    verdict of request_workflow_status is 'accepted': its guards compare those three values,
+    and the verdict table (rule F9's exhaustive evaluation) rejects none of the triples that
+    satisfy them."""
+    if f.name != "request_workflow_status":
+        return False
+    try:
+        from sa import requests as RQ
+        table = ctx.get("f9_verdicts", lambda: RQ.verdicts(ctx.prog, f))
+        idx, before, after = RQ._split(f)
+    except AnalysisError:
+        return False
+    req = [p_ for p_ in f.params if p_ not in ("self", "cls")][0]
+    role = {req: 0}
+    role.update({b: 1 for b in before})
+    role.update({a_: 2 for a_ in after})
+    own = [a_ for q_, a_ in e.guards if q_ == f.qualname]
+    tests = []
+    for a_ in own:
+        if len(a_) < 3 or a_[1] not in role:
+            continue
+        i = role[a_[1]]
+        if a_[0] in ("in", "notin") and isinstance(a_[2], (set, frozenset)):
+            tests.append((i, a_[0], a_[2]))
+        elif a_[0] in ("==", "!=") and isinstance(a_[2], str):
+            tests.append((i, "in" if a_[0] == "==" else "notin", frozenset([a_[2]])))
+        elif a_[0] in ("==", "!=") and isinstance(a_[2], tuple) and len(a_[2]) == 2 and \
+                a_[2][0] == "src" and a_[2][1] in role:
+            tests.append((i, "same" if a_[0] == "==" else "differs", role[a_[2][1]]))
+    if not any(t[0] == 2 or (t[1] in ("same", "differs") and t[2] == 2) for t in tests):
+        return False   # nothing ties the write to the outcome of the request
+
+    def ok(tr):
+        for i, op, st in tests:
+            if op == "same":
+                if tr[i] != tr[st]:
+                    return False
+            elif op == "differs":
+                if tr[i] == tr[st]:
+                    return False
+            elif (tr[i] in st) != (op == "in"):
+                return False
+        return True
+    hit = [tr for tr in table if ok(tr)]
+    return bool(hit) and all(table[tr] == "silent" for tr in hit)
+
+
 def _via(f, top):
     """The statement of the entry point through which a write happens, as a stable phrase:
     for a loop its iterated expression (which tasks are visited), else the statement."""
@@ -923,16 +973,23 @@ def _via(f, top):
     while st is not None and getattr(st, "_parent", None) is not f.node:
         st = getattr(st, "_parent", None)
     st = st if st is not None else top
-    from sa.core import untag
+    from sa.core import untag, subst_locals
+
+    def iterated(loop):
+        # what the loop runs over, seen through a local the collection was put in first
+        try:
+            return untag(unparse(subst_locals(f.node, loop.iter)))
+        except Exception:  # noqa: B902
+            return untag(unparse(loop.iter))
     if isinstance(st, ast.For):
-        return untag(unparse(st.iter))
+        return iterated(st)
     if isinstance(st, ast.If):
         # the innermost loop / statement holding the write inside the conditional
         inner = top
         while inner is not None and inner is not st and not isinstance(inner, ast.For):
             inner = getattr(inner, "_parent", None)
         if isinstance(inner, ast.For):
-            return untag(unparse(inner.iter))
+            return iterated(inner)
     txt = untag(norm_src(st))
     return txt if len(txt) <= 90 else txt[:87] + "..."
 
